@@ -1,60 +1,34 @@
 /-
-  C05 ⟵ C03, second part: every handled event keeps the invariant `J` (Lemmas/C05_C03Step.lean), hence every run of
-  the model of `HttpStream`; and what the monitor accepts is what `Http2Client` is assumed to be handed (`Good2`).
+  C05 ⟵ C03, second part: every handled event keeps the invariant `J` — assembled from Lemmas/C05_C03H1/H2/B/S1/S2/S3.lean
+  (split so that each part compiles in about a minute and they build in parallel).
 -/
 import MitmVerif.Lemmas.C05_C03Step
+import MitmVerif.Lemmas.C05_C03H1
+import MitmVerif.Lemmas.C05_C03H2
+import MitmVerif.Lemmas.C05_C03B
+import MitmVerif.Lemmas.C05_C03S1
+import MitmVerif.Lemmas.C05_C03S2
+import MitmVerif.Lemmas.C05_C03S3
 import MitmVerif.Lemmas.C05_Sub
 namespace MitmVerif.C03
 
-syntax "j_tree2" ident ident : tactic
-macro_rules
-  | `(tactic| j_tree2 $d $p) => `(tactic|
-      ((try simp only [resume, handlePE, peAfter, killedFire, killedSilent, sendResponse, startRequestStream, cbsErrFire,
-        connectFinish, flowDone, onReqHeaders, clientEvent, serverEvent, ↓reduceIte, Bool.false_eq_true, reduceCtorEq]) <;>
-       (repeat' split) <;>
-       (simp [J, JF, pOK, pAtt, pFine, isS1, imp, fire, fireC, mk, crash, W.pre, outIf, connectSends, killFinishC, peRetC,
-          List.foldl_append, *] at * <;>
-        (first | done |
-          (cases $p:ident <;> cases hcs' : Core.cs $d <;> cases hss' : Core.ss $d <;>
-            simp_all [adv, srvStep, pAtt, pFine, isS1] <;> (first | done | grind))))))
-
-set_option maxHeartbeats 8000000 in
-theorem j_reqErr (p : SP) (d : Core) (peek : Bool) (hp : d.paused = none) (hb : d.bad = false) (hpt : d.pt = false)
-    (h : J p d = true) :
-    J ((handlePE d false .top peek).out.foldl adv p) (handlePE d false .top peek).c = true := by
-  j_tree2 d p
-
-set_option maxHeartbeats 8000000 in
-theorem j_respErr (p : SP) (d : Core) (peek : Bool) (hp : d.paused = none) (hb : d.bad = false) (hpt : d.pt = false)
-    (hA : d.attached = true) (h : J p d = true) :
-    J ((handlePE d true .top peek).out.foldl adv p) (handlePE d true .top peek).c = true := by
-  j_tree2 d p
-
-set_option maxHeartbeats 16000000 in
 theorem j_reqHeaders (p : SP) (d : Core) (e : Bool) (kind : ReqKind) (ws : Bool) (v : Verdict) (hp : d.paused = none)
     (hb : d.bad = false) (hpt : d.pt = false) (h : J p d = true) :
     J ((clientEvent d (.reqHeaders e kind ws v)).out.foldl adv p) (clientEvent d (.reqHeaders e kind ws v)).c = true := by
-  cases hcs : d.cs <;> cases kind <;> cases v <;> cases e <;> simp only [clientEvent, hcs] <;> j_tree2 d p
+  cases kind with
+  | invalid => exact j_reqHeaders_invalid p d e ws v hp hb hpt h
+  | connect => exact j_reqHeaders_connect p d e ws v hp hb hpt h
+  | nohost => exact j_reqHeaders_nohost p d e ws v hp hb hpt h
+  | norm => exact j_reqHeaders_norm p d e ws v hp hb hpt h
 
-set_option maxHeartbeats 16000000 in
-theorem j_reqBody (p : SP) (d : Core) (ev : AEv)
-    (hev : (∃ v, ev = .reqData v) ∨ (∃ ne, ev = .reqEOM ne) ∨ ev = .reqTrailers) (hp : d.paused = none)
-    (hb : d.bad = false) (hpt : d.pt = false) (h : J p d = true) :
-    J ((clientEvent d ev).out.foldl adv p) (clientEvent d ev).c = true := by
-  rcases hev with ⟨v, rfl⟩ | ⟨ne, rfl⟩ | rfl
-  · cases hcs : d.cs <;> cases v <;> simp only [clientEvent, hcs] <;> j_tree2 d p
-  · cases hcs : d.cs <;> simp only [clientEvent, hcs] <;> j_tree2 d p
-  · cases hcs : d.cs <;> simp only [clientEvent, hcs] <;> j_tree2 d p
-
-set_option maxHeartbeats 16000000 in
 theorem j_respEvent (p : SP) (d : Core) (ev : AEv)
     (hev : (∃ e k v, ev = .respHeaders e k v) ∨ (∃ v, ev = .respData v) ∨ (∃ ne, ev = .respEOM ne) ∨ ev = .respTrailers)
     (hp : d.paused = none) (hb : d.bad = false) (hpt : d.pt = false) (hA : d.attached = true) (h : J p d = true) :
     J ((serverEvent d ev).out.foldl adv p) (serverEvent d ev).c = true := by
-  rcases hev with ⟨e, k, v, rfl⟩ | ⟨v, rfl⟩ | ⟨ne, rfl⟩ | rfl
-  · cases hss : d.ss <;> cases k <;> cases v <;> cases e <;> simp only [serverEvent, hss] <;> j_tree2 d p
-  · cases hss : d.ss <;> cases v <;> simp only [serverEvent, hss] <;> j_tree2 d p
-  · cases hss : d.ss <;> simp only [serverEvent, hss] <;> j_tree2 d p
-  · cases hss : d.ss <;> simp only [serverEvent, hss] <;> j_tree2 d p
+  rcases hev with ⟨e, k, v, rfl⟩ | hrest
+  · cases e with
+    | true => exact j_respHeaders_true p d k v hp hb hpt hA h
+    | false => exact j_respHeaders_false p d k v hp hb hpt hA h
+  · exact j_respRest p d ev hrest hp hb hpt hA h
 
 end MitmVerif.C03
